@@ -383,6 +383,17 @@ func sideEffectFree(f *ssa.Function, depth int) bool {
 				}
 				return
 			}
+			// functions of value-only std packages have no effect on zap's state
+			if f := CalleeFunc(x); f != nil && f.Pkg() != nil {
+				switch f.Pkg().Path() {
+				case "time", "strings", "bytes", "math", "strconv", "unicode", "unicode/utf8", "errors", "reflect", "math/bits":
+					return
+				case "fmt":
+					if strings.HasPrefix(f.Name(), "Sprint") || f.Name() == "Errorf" {
+						return
+					}
+				}
+			}
 			// dynamic or std calls: accept query-like methods by name
 			name := ""
 			if x.Call.IsInvoke() {
